@@ -108,3 +108,20 @@ prop("C20", "Pre-existing target keys are handled as the configured policy says,
        "quick": {"checks": 6000, "shards": 8, "timeout": 600},
        "thorough": {"checks": 300000, "shards": 16, "timeout": 5400}}],
      RDB_ASSUME)
+
+prop("C04", "An incomplete snapshot replay is never recorded as a completed full sync", "fault_enumeration",
+     "a case = small checksummed snapshot from C03's generator (<=6 keys, ~150-600 bytes, all encodings) x replay configuration (parallel 1/2/4, pipe size 1..1024, both paths). Per case four fault dimensions are ENUMERATED: "
+     "(1) truncation at every length 0..len-1 with the reader returning EOF, and at every 9th length with the reader blocking until the tool is stopped; (2) every single-byte alteration (5 values per position: ^0x01, ^0x80, 0x00, 0xFF, +1) of every position incl. the footer, "
+     "parsed (with the lazy per-value expansion) in child processes under an address-space limit so that a fatal allocation is observed, not suffered; (3) an error reply to the k-th data request for every k; (4) cancellation after exactly k target requests for every k in 0..R, "
+     "half of them against a slow target (300 us per request) so that the parser reaches the end while workers still hold queued entries. evaluations = replays/parses executed; non-trivial = distinct snapshot with >= 2 keys for which some fault left the target with a strict subset after >= 1 entry had been applied. "
+     "Oracle: whenever the final keyspace lacks part of the snapshot (C03 comparison): Send returned an error AND no request storing <runid>_offset = snapshot offset was executed AND a fresh StartPoint does not return the snapshot offset; altered input: the parser reports an error before 'done'; "
+     "the call returns (a watchdog expiry is re-checked alone in a fresh process with a 120 s limit before it counts), the process survives (death by an allocation >= 32 GiB is a verdict, any other death is inconclusive). "
+     "Thorough adds coverage-guided fuzzing of the parser with the CRC-consistency oracle (accepted => footer == independent CRC64 of the consumed bytes).",
+     [{"pkg": "c04", "test": "TestC04",
+       "quick": {"checks": 32, "shards": 16, "timeout": 900},
+       "thorough": {"checks": 640, "shards": 16, "timeout": 5400},
+       "fuzz": [{"target": "FuzzC04", "time": "180s", "timeout": 600}]},
+      {"pkg": "c04", "test": "TestC04Alter",
+       "quick": {"checks": 64, "shards": 8, "timeout": 900},
+       "thorough": {"checks": 3200, "shards": 16, "timeout": 5400}}],
+     RDB_ASSUME + ["child processes run under `ulimit -v 40 GiB`"])
